@@ -219,11 +219,12 @@ Definition denote_points (dim : nat) (d : data) : option (list (list value)) := 
 
 (* ------------------------------------------------------------------ compiled entry table *)
 
-Inductive precheck := PLenPointsWeights | PWeightsDouble | PAdjInt64.
+Inductive precheck := PLenPointsWeights | PWeightsDouble | PAdjInt64 | PPointsDouble.
 Definition precheck_of_name (s : string) : option precheck :=
   if String.eqb s "len_points_weights" then Some PLenPointsWeights
   else if String.eqb s "weights_type_double" then Some PWeightsDouble
-  else if String.eqb s "adjncy_type_int64" then Some PAdjInt64 else None.
+  else if String.eqb s "adjncy_type_int64" then Some PAdjInt64
+  else if String.eqb s "points_type_double" then Some PPointsDouble else None.
 
 (* how the weights' element type is chosen: from the tag (a macro with one arm per tag) or fixed (to_slice::<f64>) *)
 Inductive wview := WFixed (nt : numty) | WByTag (nint nint64 ndouble : numty).
@@ -398,12 +399,13 @@ Definition fm_imbalance (bits : N) : option N := conv_param PNonPosNone bits.
 Definition take_slice (n : nat) (p0 : list N) : option (list N * list N) :=
   if n <=? List.length p0 then Some (firstn n p0, skipn n p0) else None.
 
-Record pctx := { px_len_mismatch : bool; px_weights_not_double : bool; px_adj_not_int64 : bool }.
+Record pctx := { px_len_mismatch : bool; px_weights_not_double : bool; px_adj_not_int64 : bool; px_points_not_double : bool }.
 Definition pre_fails (k : precheck) (cx : pctx) : bool :=
   match k with
   | PLenPointsWeights => px_len_mismatch cx
   | PWeightsDouble => px_weights_not_double cx
   | PAdjInt64 => px_adj_not_int64 cx
+  | PPointsDouble => px_points_not_double cx   (* no entry point has this check at present *)
   end.
 Fixpoint run_pre (pre : list (precheck * code)) (cx : pctx) : option code :=
   match pre with
@@ -450,7 +452,7 @@ Section Entries.
     with_params e args (fun params =>
     let n := dlen weights in
     pre_then e {| px_len_mismatch := false; px_weights_not_double := negb (ty_eqb (dtype weights) TDouble);
-                  px_adj_not_int64 := false |} p0
+                  px_adj_not_int64 := false; px_points_not_double := false |} p0
       match take_slice n p0 with
       | None => BUB
       | Some (s, rest) =>
@@ -470,7 +472,7 @@ Section Entries.
     let n := if ce_count_points e then dlen points else dlen weights in
     pre_then e {| px_len_mismatch := negb (Nat.eqb (dlen points) (dlen weights));
                   px_weights_not_double := negb (ty_eqb (dtype weights) TDouble);
-                  px_adj_not_int64 := false |} p0
+                  px_adj_not_int64 := false; px_points_not_double := negb (ty_eqb (dtype points) TDouble) |} p0
       match take_slice n p0 with
       | None => BUB
       | Some (s, rest) =>
@@ -499,7 +501,7 @@ Section Entries.
     with_params e args (fun params =>
     let n := dlen weights in
     pre_then e {| px_len_mismatch := false; px_weights_not_double := negb (ty_eqb (dtype weights) TDouble);
-                  px_adj_not_int64 := negb (ty_eqb (a_type adj) TInt64) |} p0
+                  px_adj_not_int64 := negb (ty_eqb (a_type adj) TInt64); px_points_not_double := false |} p0
       match take_slice n p0 with
       | None => BUB
       | Some (s, rest) =>
